@@ -279,6 +279,11 @@ func (n *CNode) ApproveGov(txs [][]byte) {
 	n.C.Consensus.VerifSetProposalVoteDeadline(time.Now().Add(time.Hour).UnixMilli())
 }
 
+// CloseVoteWindow: the proposal-vote deadline of this height has passed (every node then rejects governance proposals)
+func (n *CNode) CloseVoteWindow() {
+	n.C.Consensus.VerifSetProposalVoteDeadline(time.Now().Add(-time.Hour).UnixMilli())
+}
+
 func (n *CNode) Validate(p *Proposal, qc *lib.QuorumCertificate) lib.ErrorI {
 	n.Enter()
 	_, err := n.C.ValidateProposal(p.RCBuildHeight, qc, NoEvidence())
